@@ -126,6 +126,7 @@ theorem iT_step (f : Sem) (j : Job) (cl : Cluster) (s s' : Sys) (st : Step) (wf 
   | env es =>
     simp only [step] at hs
     split at hs; · cases hs
+    rw [envStepP_eq f j s.env es h1.no_trim] at hs
     cases he : envStep f j s.env es with
     | none => simp [he] at hs
     | some e' =>
